@@ -296,6 +296,58 @@ def _coordinate_constraints(ctx):
     ctx.require_count("R26 coordinate constraint cases", n, 12)
 
 
+def _progress_flags(ctx):
+    """The progress flag an applier returns is true iff it wrote something — also for multi-axis constraints
+    whose axes are in different states (the fixpoint loop uses the flag to decide when nothing changed)."""
+    ix = ctx.index
+    SC = _cls(ctx, "SizeConstraint")
+    PC = _cls(ctx, "PositionConstraint")
+    fs = ix.function(f"{INIT}._apply_size_constraint")
+    fp = ix.function(f"{INIT}._apply_position_constraint")
+    n = 0
+    for states in itertools.product(("empty", "equal"), repeat=2):
+        for axes in ((0, 1), (2, 0), (1, 2)):
+            # size constraint
+            it = ctx.fresh_interp()
+            g = GridRec()
+            cfg = _config(g)
+            sl, sh = _dicts()
+            for ax in range(3):
+                sl["other"][ax] = [Rat.atom(f"ob0_{ax}"), Rat.atom(f"ob1_{ax}")]
+                sh["other"][ax] = Rat.atom(f"osz_{ax}")
+            for ax, st in zip(axes, states):
+                if st == "equal":
+                    sh["obj"][ax] = call_atom("l2c", ax, call_atom("extent", ax, Rat.atom(f"ob0_{ax}"), Rat.atom(f"ob1_{ax}")) * Rat.atom("p"), "nearest")
+            c = Obj(SC, dict(object="obj", other_object="other", axes=axes, other_axes=axes, proportions=(Rat.atom("p"),) * 2, offsets=(None, None), grid_offsets=(None, None)), "c")
+            try:
+                res, _ = it.call(it.closure_of(fs), [], dict(constraint=c, object_map=_objmap(ctx), config=cfg, shape_dict=sh, slice_dict=sl))
+            except Raised as r:
+                res = f"raise: {r}"
+            want = "empty" in states
+            n += 1
+            ctx.ob("R26.6", f"_apply_size_constraint[axes={axes},states={states}]:progress-flag", res is want, "the returned flag is true iff some axis was written (a later, already-consistent axis must not hide an earlier write)", res, want)
+            # position constraint
+            it = ctx.fresh_interp()
+            g = GridRec()
+            cfg = _config(g)
+            sl, sh = _dicts()
+            for ax in range(3):
+                sl["other"][ax] = [Rat.atom(f"ob0_{ax}"), Rat.atom(f"ob1_{ax}")]
+                sh["obj"][ax] = Rat.atom(f"sz_{ax}")
+            for ax, st in zip(axes, states):
+                if st == "equal":
+                    anchor = call_atom("anchor", ax, Rat.atom(f"ob0_{ax}"), Rat.atom(f"ob1_{ax}"), Rat.atom("opos"))
+                    sl["obj"][ax] = [call_atom(f"bfa[{i}]", ax, Rat.atom(f"sz_{ax}"), anchor, Rat.atom("pos")) for i in (0, 1)]
+            c = Obj(PC, dict(object="obj", other_object="other", axes=axes, object_positions=(Rat.atom("pos"),) * 2, other_object_positions=(Rat.atom("opos"),) * 2, margins=(None, None), grid_margins=(None, None)), "c")
+            try:
+                res, _ = it.call(it.closure_of(fp), [], dict(constraint=c, object_map=_objmap(ctx), config=cfg, shape_dict=sh, slice_dict=sl))
+            except Raised as r:
+                res = f"raise: {r}"
+            n += 1
+            ctx.ob("R26.6", f"_apply_position_constraint[axes={axes},states={states}]:progress-flag", res is want, "the returned flag is true iff some axis was written", res, want)
+    ctx.require_count("R26.6 progress-flag cases", n, 24)
+
+
 def _bookkeeping(ctx):
     """_update_grid_slices_from_shapes / _update_grid_shapes_from_slices: b1 - b0 = size, conflicts are errors."""
     ix = ctx.index
@@ -460,6 +512,7 @@ def _loop_rules(ctx):
         ctx.ob("R26.2", f"_apply_constraints_iteratively:dispatch:{cname}", found.get(cname) == [fn], "each constraint class is applied by its own applier, inside the try block", found.get(cname), [fn])
     handlers_ok = bool(tries) and all(any(isinstance(s, ast.Assign) and "errors[" in ast.unparse(s.targets[0]) for h in t.handlers for s in h.body) for t in tries)
     ctx.ob("R26.2", "_apply_constraints_iteratively:exceptions-recorded", handlers_ok, "an exception raised by an applier is recorded in errors[...] (soft raise), not swallowed", [ast.unparse(h)[:120] for t in tries for h in t.handlers], "errors[c.object] = ...")
+    _exit_rule(ctx, "R26.7")
     # every constraint class exported by the object module has a dispatch arm
     obj_mod = ix.module("fdtdx.objects.object")
     classes = sorted(c for c in obj_mod.classes if c.endswith("Constraint"))
@@ -477,11 +530,48 @@ def _loop_rules(ctx):
     ctx.ob("R26.2", "place_objects:errors-raise", uses and guarded and bool(raises), "place_objects resolves through resolve_object_constraints and raises when an error entry is non-empty", {"calls_resolver": uses, "raise_under_errors_test": guarded}, "both true")
 
 
+def _exit_rule(ctx, rule):
+    """The fixpoint iteration may end only after a complete constraint sweep that changed nothing: every
+    constraint is then applied at least once against the final slices, so a constraint that was skipped while its
+    reference object was unknown cannot be silently violated by an accepted placement."""
+    import ast
+
+    ix = ctx.index
+    f = ix.function(f"{INIT}._apply_constraints_iteratively")
+    sweeps = [n for n in ast.walk(f.node) if isinstance(n, ast.For) and ast.unparse(n.iter) == "constraints"]
+    outers = [n for n in ast.walk(f.node) if isinstance(n, (ast.For, ast.While)) and sweeps and sweeps[0] in ast.walk(n) and n is not sweeps[0]]
+    if len(sweeps) != 1 or len(outers) != 1:
+        raise AnalysisError("cannot locate the fixpoint iteration and its constraint sweep")
+    outer, sweep = outers[0], sweeps[0]
+    idx_sweep = next(i for i, s in enumerate(outer.body) if sweep in ast.walk(s))
+    exits = []
+
+    def visit(stmts, guards, top_index):
+        for i, s in enumerate(stmts):
+            ti = i if top_index is None else top_index
+            if isinstance(s, (ast.Break, ast.Return)):
+                exits.append((ti, list(guards), type(s).__name__))
+            elif isinstance(s, ast.If):
+                visit(s.body, guards + [ast.unparse(s.test)], ti)
+                visit(s.orelse, guards + [f"not ({ast.unparse(s.test)})"], ti)
+            elif isinstance(s, (ast.With, ast.Try)):
+                for blk in (getattr(s, "body", []), getattr(s, "orelse", []), getattr(s, "finalbody", [])):
+                    visit(blk, guards, ti)
+                for h in getattr(s, "handlers", []):
+                    visit(h.body, guards, ti)
+            # nested loops own their breaks
+
+    visit(outer.body, [], None)
+    bad = [(ti, g, k) for ti, g, k in exits if not (ti > idx_sweep and any(x.replace(" ", "") == "notchanged" for x in g))]
+    ctx.ob(rule, "_apply_constraints_iteratively:exit-after-change-free-sweep", bool(exits) and not bad, "every exit of the fixpoint iteration lies after the constraint sweep and under `not changed`: placement is only accepted after each constraint has been applied to the final slices (no early exit once all slots are filled)", [(g, k, "before the sweep" if ti <= idx_sweep else "after the sweep") for ti, g, k in bad], "exits guarded by `not changed` after the sweep")
+
+
 def run(ctx):
     _size_constraint(ctx)
     _position_constraint(ctx)
     _extension_constraint(ctx)
     _coordinate_constraints(ctx)
+    _progress_flags(ctx)
     _bookkeeping(ctx)
     _extend_to_inf(ctx)
     _validation(ctx)
